@@ -28,6 +28,7 @@ import (
 	"strings"
 	"sync"
 	"sync/atomic"
+	"time"
 
 	json "github.com/go-json-experiment/json"
 	"github.com/go-json-experiment/json/internal"
@@ -282,7 +283,7 @@ func c05Opts(optSel int) []jsontext.Options {
 var c05Export = jsontext.Internal.Export(&internal.AllowInternalUse)
 
 func c05NewRunner(c *Ctx, in []byte, plan c05Plan, optSel int, ptrEvery bool) *c05Runner {
-	r := &c05Runner{c: c, in: in, ptrEvery: ptrEvery}
+	r := &c05Runner{c: c, in: in, ptrEvery: ptrEvery, recs: make([]c05Rec, 0, 8)}
 	if p := guard(func() {
 		if plan.kind == "whole" {
 			// the decoder json.Unmarshal uses: the complete slice in one piece, no reader (never returned to the pool)
@@ -354,7 +355,9 @@ func (r *c05Runner) call(op byte, withPtr bool) c05Rec {
 			rc.res = string(rune(r.dec.PeekKind()))
 		}
 		rc.ecl, rc.eoff, rc.eptr = c05ErrClass(err)
-		unread = r.observe(&rc, withPtr || r.ptrEvery)
+		// StackPointer costs O(depth): on very deep documents the stream runs sample it (the reference always has it)
+		wp := withPtr || (r.ptrEvery && (len(r.recs)%61 == 0 || r.dec.StackDepth() <= 64))
+		unread = r.observe(&rc, wp)
 	}); p != nil {
 		r.panicked = p
 		rc.ecl = "panic"
@@ -375,11 +378,15 @@ func (r *c05Runner) call(op byte, withPtr bool) c05Rec {
 	if rc.off < 0 || rc.off > int64(len(r.in)) || int64(ho) != rc.off+int64(len(unread)) || !bytes.Equal(unread, r.in[rc.off:ho]) {
 		r.setBad("unread-invariant", fmt.Sprintf("after %s: handedOut=%d InputOffset=%d len(UnreadBuffer)=%d unread=%q", c05OpName(op), ho, rc.off, len(unread), trunc(string(unread), 60)))
 	}
+	r.recs = append(r.recs, rc)
+	return rc
+}
+
+// finish evaluates the once-per-run invariants.
+func (r *c05Runner) finish() {
 	if r.fd != nil && !bytes.Equal(r.fd.data, r.in) {
 		r.setBad("reader-data-mutated", "the decoder wrote into the memory owned by the reader")
 	}
-	r.recs = append(r.recs, rc)
-	return rc
 }
 
 func (r *c05Runner) setBad(op, msg string) {
@@ -591,6 +598,7 @@ func c05Detail(in []byte, plan c05Plan, optSel int, script []byte, i int, ref, g
 func (e *c05Env) check(in []byte, plan c05Plan, optSel int, script []byte, ref *c05Runner, ptrEvery bool, probe int) {
 	c := e.c
 	got, fi := c05RunStream(c, in, plan, optSel, script, ptrEvery, probe)
+	got.finish()
 	e.cases.Add(1)
 	if got.panicked != nil {
 		c.Panic("stream:"+plan.kind, in, got.panicked, c05Detail(in, plan, optSel, script, len(got.recs), ref.recs, got.recs))
@@ -2040,18 +2048,19 @@ func (e *c05Env) phaseCorrespondence() {
 
 func runC05(c *Ctx) {
 	e := &c05Env{c: c, minimise: map[string]int{}}
-	e.phaseCorrespondence()
-	e.phaseExhaustive()
-	c.Note("after phase A (exhaustive interleavings): %d stream runs", e.cases.Load())
-	e.phaseFaults()
-	c.Note("after phase B (fault at every read index): %d stream runs", e.cases.Load())
-	e.phaseStraddle()
-	c.Note("after phase E (straddling tokens): %d stream runs", e.cases.Load())
-	e.phaseRandom()
-	c.Note("after phase C (random documents/scripts/plans): %d stream runs", e.cases.Load())
-	e.phaseSizes()
-	c.Note("after phase D (size sweep 48..8195): %d stream runs", e.cases.Load())
-	e.phaseUnmarshal()
-	c.Note("after phase F (UnmarshalRead/UnmarshalDecode): %d stream runs", e.cases.Load())
+	start := time.Now()
+	phase := func(name string, f func()) {
+		t0 := time.Now()
+		before := e.cases.Load()
+		f()
+		c.Note("%s: %d stream runs in %.1fs (total %.1fs)", name, e.cases.Load()-before, time.Since(t0).Seconds(), time.Since(start).Seconds())
+	}
+	phase("phase H (model correspondence)", e.phaseCorrespondence)
+	phase("phase A (exhaustive interleavings)", e.phaseExhaustive)
+	phase("phase B (fault at every read index)", e.phaseFaults)
+	phase("phase E (straddling tokens)", e.phaseStraddle)
+	phase("phase C (random documents/scripts/plans)", e.phaseRandom)
+	phase("phase D (size sweep 48..8195)", e.phaseSizes)
+	phase("phase F (UnmarshalRead/UnmarshalDecode/IsValid)", e.phaseUnmarshal)
 	c.HitN("stream-runs-total", e.cases.Load())
 }
